@@ -261,9 +261,6 @@ static void shapes_case (vf_rng *r)
     else if (rp_is_wide (q.dst.fmt) && vf_chance (r, 1, 2)) q.dst.fmt = PIXMAN_a8r8g8b8;
     rq_gen_image (r, &q.src, 0, RQP_NO_INDEXED | RQP_NO_ALPHAMAP | RQP_CLIPPY);
     if (q.dst.w > GW || q.dst.h > GH) return;
-    if (!rq_build (&q, r)) return;
-    static grid_t g; grid_full (&g, q.dst.w, q.dst.h);
-    if (q.dst.n_clip) grid_and_boxes (&g, q.dst.clip, q.dst.n_clip, 0, 0);
     int xs = (int)vf_range (r, -3, 6), ys = (int)vf_range (r, -3, 3), xd = (int)vf_range (r, -4, 4), yd = (int)vf_range (r, -3, 3);
     static const pixman_format_code_t mf[] = { PIXMAN_a8, PIXMAN_a1, PIXMAN_a4, PIXMAN_a8 };
     pixman_format_code_t maskf = VF_PICK (r, mf);
@@ -278,6 +275,28 @@ static void shapes_case (vf_rng *r)
         tp[i].top.y = fx (r, -3, q.dst.h); tp[i].bot.y = tp[i].top.y + (pixman_fixed_t)vf_range (r, 0, (int64_t)(q.dst.h + 4) * 65536);
         tp[i].top.l = fx (r, -6, q.dst.w); tp[i].top.r = tp[i].top.l + (pixman_fixed_t)vf_range (r, 0, (int64_t)(q.dst.w + 8) * 65536); tp[i].bot.l = fx (r, -6, q.dst.w); tp[i].bot.r = tp[i].bot.l + (pixman_fixed_t)vf_range (r, 0, (int64_t)(q.dst.w + 8) * 65536);
     }
+    /* the library may rasterise straight into the destination (ADD, opaque source, destination of the mask's format): steer a third of the
+     * composite_* calls there, with a destination clip that just contains the shapes where they are given - not where the offset puts them */
+    if (kind <= 1 && vf_chance (r, 1, 3)) {
+        op = PIXMAN_OP_ADD; q.dst.fmt = maskf; q.dst.accessors = 0;
+        memset (&q.src, 0, sizeof q.src); q.src.kind = RQ_SOLID; q.src.solid.alpha = 0xffff; q.src.solid.red = (uint16_t)vf_next (r); pixman_transform_init_identity (&q.src.tr);
+        if (vf_chance (r, 2, 3)) {
+            int64_t x1 = INT32_MAX, y1 = INT32_MAX, x2 = INT32_MIN, y2 = INT32_MIN;
+            for (int i = 0; i < n; i++) {
+                int64_t xv[4], yv[4]; int nv;
+                if (kind == 0) { xv[0] = tr[i].left.p1.x; xv[1] = tr[i].left.p2.x; xv[2] = tr[i].right.p1.x; xv[3] = tr[i].right.p2.x; yv[0] = tr[i].top; yv[1] = tr[i].bottom; yv[2] = tr[i].top; yv[3] = tr[i].bottom; nv = 4; }
+                else { xv[0] = tri[i].p1.x; xv[1] = tri[i].p2.x; xv[2] = tri[i].p3.x; yv[0] = tri[i].p1.y; yv[1] = tri[i].p2.y; yv[2] = tri[i].p3.y; nv = 3; }
+                for (int k = 0; k < nv; k++) { if (xv[k] < x1) x1 = xv[k]; if (xv[k] > x2) x2 = xv[k]; if (yv[k] < y1) y1 = yv[k]; if (yv[k] > y2) y2 = yv[k]; }
+            }
+            q.dst.n_clip = 1; q.dst.clip[0].x1 = (int)(x1 >> 16) - (int)vf_range (r, 0, 2); q.dst.clip[0].y1 = (int)(y1 >> 16) - (int)vf_range (r, 0, 2);
+            q.dst.clip[0].x2 = (int)((x2 + 0xffff) >> 16) + (int)vf_range (r, 0, 2); q.dst.clip[0].y2 = (int)((y2 + 0xffff) >> 16) + (int)vf_range (r, 0, 2);
+            if (xd == 0 && yd == 0) xd = vf_chance (r, 1, 2) ? 3 : -2;
+            vf_count ("direct_route_candidates_with_containing_clip", 1);
+        }
+    }
+    if (!rq_build (&q, r)) return;
+    static grid_t g; grid_full (&g, q.dst.w, q.dst.h);
+    if (q.dst.n_clip) grid_and_boxes (&g, q.dst.clip, q.dst.n_clip, 0, 0);
     static char desc[900]; rq_describe (&q, desc, 600);
     vf_case_desc ("%s n=%d op=%d mask_format=%s offsets src(%d,%d) dst(%d,%d) first-trap top=%x bottom=%x | %s", what, n, (int)op, rp_name (maskf), xs, ys, xd, yd, (unsigned)tr[0].top, (unsigned)tr[0].bottom, desc);
     vf_inflight ("%s n=%d on %s %dx%d", what, n, rp_name (q.dst.fmt), q.dst.w, q.dst.h);
